@@ -220,7 +220,11 @@ var lastC20 c20Facts
 func c20Check(c c20Case) (err error) {
 	crumb("C20", "programs", c)
 	defer clearCrumb()
-	stop := watchdog(10*time.Minute, "C20 case")
+	lim := 4 * time.Minute
+	if thorough() {
+		lim = 10 * time.Minute
+	}
+	stop := watchdog(lim, "C20 case")
 	defer stop()
 	// the kernel is a process-wide switch: it is set before the goroutines start and restored after they have been joined
 	withKernel(!c.AVX2, func() { err = c20Body(c) })
